@@ -34,8 +34,24 @@ class SuiteSparseSolver:
         self.b = None
         self.F = None   # symbolic factorization
         self.N = None   # numeric factorization
+        self._pat = None  # sparsity pattern `F` belongs to
         self.factorize = True
         self.use_linsolve = False
+
+    @staticmethod
+    def _pattern(A):
+        """
+        Return the sparsity pattern (column pointers and row indices) of ``A``.
+        """
+        ccs = A.CCS
+        return np.array(ccs[0]).ravel(), np.array(ccs[1]).ravel()
+
+    def _same_pattern(self, pattern):
+        """
+        Check if ``pattern`` is the one the cached symbolic factorization was computed for.
+        """
+        pat = getattr(self, '_pat', None)
+        return (pat is not None) and np.array_equal(pat[0], pattern[0]) and np.array_equal(pat[1], pattern[1])
 
     def _symbolic(self, A):
         """
@@ -117,8 +133,15 @@ class SuiteSparseSolver:
         self.A = A
         self.b = b
 
+        # the cached symbolic factorization is only valid for the sparsity pattern it was
+        # computed for; not every back-end checks that (KLU silently returns a wrong solution or crashes)
+        pattern = self._pattern(self.A)
+        if self.factorize is False and not self._same_pattern(pattern):
+            self.factorize = True
+
         if self.factorize is True:
             self.F = self._symbolic(self.A)
+            self._pat = pattern
             self.factorize = False
 
         try:
